@@ -8,7 +8,7 @@ import lib
 from lib import cZ, cN, cQ, cbool, clist
 
 REQ = ("From Coq Require Import ZArith QArith List.\nImport ListNotations.\n"
-       "From PV Require Import Gen.DomainConst Gen.CloneConst Clone.Pairs Clone.PairsRun.")
+       "From PV Require Import Gen.DomainConst Gen.CloneConst Clone.Pairs Clone.PairsRun Clone.PairsPre.")
 
 # ------------------------------------------------------------------------------------------
 # fragment library: statement trees -> Python source
@@ -502,6 +502,109 @@ def twin_function(kinds, occ, n_fill, v, name="export_records"):
     body += FILLER[max(2, n_fill // 2):n_fill]
     body.append("return total - failed")
     return lines + ["    " + l for l in body]
+
+
+# ------------------------------------------------------------------------------------------
+# "size ratio" family: functions built around try / except / finally with IDENTICAL handler and
+# finally blocks and a try body of k statements.  CodeFragment.Size (calculateASTSize) counts only
+# the nodes reachable through Children/Body/Orelse, i.e. NOT the handler and finally bodies, while the
+# APTED tree (ConvertAST) contains them.  Two members therefore have Size k+3 / k'+3 (their inner
+# `try` statements k+1 / k'+1) although most of their trees is shared: Size ratios between 1.5 and 2
+# with similarities of 0.74 .. 0.9, i.e. pairs that sit on both sides of the size pre-filter of
+# shouldCompareFragments (4*|s1-s2| > s1+s2, ratio 5/3) and are still clones at the default thresholds.
+# Comment padding changes only the line count (line-count pre-filter: longer > 2 * shorter).
+# ------------------------------------------------------------------------------------------
+TRY_STMTS = ['handle = source.open(path)', 'header = handle.readline()', 'fields = header.split(",")', 'rows = []',
+             'width = len(fields)', 'log.debug(width)', 'total = len(rows)', 'log.debug(total)', 'check_width(rows, width)',
+             'record_stats(path, total)', 'rows.append(fields)', 'handle.seek(0)', 'stamp = clock.now()', 'audit.begin(path, stamp)',
+             'count = 0', 'count += 1', 'audit.record(path, count)', 'sink.flush()']
+
+
+def try_function(name, k, pad=0):
+    """def with a try body of k statements (2 <= k <= 19); `pad` comment lines inside the try body."""
+    lines = ["def %s(source, path, log):" % name, "    handle = None", "    try:"]
+    lines += ["        # padding %d" % i for i in range(pad)]
+    lines += ["        " + s for s in TRY_STMTS[:k - 1]]
+    lines.append("        return fields, rows")
+    lines += ["    except FileNotFoundError as exc:", '        log.warning("missing file %s", path)', '        log.debug("details: %r", exc)',
+              '        notify("missing", path)', "        return None",
+              "    except PermissionError as exc:", '        log.error("denied %s", path)', '        log.debug("details: %r", exc)',
+              '        notify("denied", path)', "        raise",
+              "    finally:", "        if handle is not None:", "            handle.close()", '        log.info("done with %s", path)', "        release(path)"]
+    return lines
+
+
+# Sizes k+3: 5, 6, 8, 9, 10.  (2,5) -> 5/8 inside (1.5, 5/3); (2,6) -> 5/9 inside (5/3, 2); (3,7) -> 6/10 exactly 5/3 (the filter's edge,
+# accepted); (3,6) -> 6/9 exactly 1.5 and (2,7) -> 5/10 exactly 2 (the edges of a filter that would look at one fragment's size only).
+RATIO_KS = [2, 3, 5, 6, 7]
+
+
+def size_class(s1, s2):
+    """Where a pair of sizes lies relative to the size pre-filter (symmetric by definition)."""
+    lo, hi = min(s1, s2), max(s1, s2)
+    if lo <= 0:
+        return "degenerate"
+    if 4 * (hi - lo) == lo + hi:
+        return "edge-5/3"
+    if 2 * hi <= 3 * lo:
+        return "le-1.5"
+    if 4 * (hi - lo) < lo + hi:
+        return "in-(1.5,5/3)"
+    if hi < 2 * lo:
+        return "in-(5/3,2)"
+    if hi == 2 * lo:
+        return "edge-2"
+    return "gt-2"
+
+
+def line_class(l1, l2):
+    lo, hi = min(l1, l2), max(l1, l2)
+    if hi == 2 * lo:
+        return "edge-2"
+    if hi == 2 * lo + 1:
+        return "edge-2+1"
+    return "gt-2" if hi > 2 * lo else "lt-2"
+
+
+def straight_function(name, n, seed=0, pad=0):
+    """A straight-line function (exactly one fragment): n assignments, `pad` comment lines; n + 2 + pad lines."""
+    return (["def %s(alpha, beta):" % name] + ["    # padding %d" % i for i in range(pad)] +
+            ["    value%d = alpha * %d + beta" % (q, q + seed) for q in range(n)] + ["    return value0 - value%d" % (n - 1)])
+
+
+def gen_ratio_project(rng, pads=True, fillers=None, per_file=None):
+    """Files (in the order to be analysed) holding the size-ratio family so that each Size-ratio class inside (1.5, 2) occurs with the
+    smaller fragment first AND with the larger fragment first (the smallest member appears twice: at the front and at the end);
+    optionally a straight-line function with padded copies on both sides of the line-count filter (2x - 1, 2x, 2x + 1 lines), before
+    and after the plain one; `fillers` one-fragment functions in front shift the batch alignment of everything behind them."""
+    mid = list(RATIO_KS[1:])
+    rng.shuffle(mid)
+    k0 = RATIO_KS[0]
+    members = [("load%da" % k0, try_function("load%da" % k0, k0), dict(k=k0))]
+    members += [("load%d" % k, try_function("load%d" % k, k), dict(k=k)) for k in mid]
+    members += [("load%db" % k0, try_function("load%db" % k0, k0), dict(k=k0))]
+    if pads:
+        n = rng.choice([5, 6, 7])
+        base = n + 2
+        padded = [("pad%d" % p, straight_function("pad%d" % p, n, 3, p), dict(lines=base + p)) for p in (base - 1, base, base + 1)]
+        rng.shuffle(padded)
+        cut = rng.randint(1, len(padded) - 1)
+        plain = [("pad0", straight_function("pad0", n, 3, 0), dict(lines=base))]
+        block = padded[:cut] + plain + padded[cut:]
+        at = rng.randint(0, len(members))
+        members = members[:at] + block + members[at:]
+    n_fill = rng.randint(0, 2) if fillers is None else fillers
+    members = [("fill%d" % i, straight_function("fill%d" % i, 6, 10 * (i + 1)), dict(filler=True)) for i in range(n_fill)] + members
+    per_file = per_file or rng.choice([1, 2, 3])
+    files, meta = [], []
+    for fi in range(0, len(members), per_file):
+        path = "r%02d.py" % (fi // per_file)
+        lines = ["import os", ""]
+        for name, src, m in members[fi:fi + per_file]:
+            meta.append(dict(m, name=name, path=path, start=len(lines) + 1))
+            lines += src + ["", ""]
+        files.append((path, "\n".join(lines) + "\n"))
+    return files, meta
 
 
 def gen_twins(rng, kinds, occ=None, n_fill=None):
